@@ -119,6 +119,13 @@ CellVolF(C, c) ==
   IF C.shape = "hypercube" THEN (IF C.dim = 2 THEN 2 ELSE 6) * BoxVol(C, c)
   ELSE IF C.dim = 2 THEN TriD(P[1], P[2], P[3])
   ELSE Det3(Diff(P[2], P[1]), Diff(P[3], P[1]), Diff(P[4], P[1]))
+CornersPositive3D(C, c) ==
+  LET P == CellPts(C, c) IN
+  IF C.shape = "simplex" THEN Det3(Diff(P[2], P[1]), Diff(P[3], P[1]), Diff(P[4], P[1])) > 0
+  ELSE \A k \in 0..7 :
+         LET nb(d) == k + (1 - 2 * Bit(k, d)) * PowA(2, d - 1)            \* the neighbour corner along local axis d
+             ev(d) == [x \in 1..3 |-> (1 - 2 * Bit(k, d)) * (P[nb(d) + 1][x] - P[k + 1][x])]
+         IN Det3(ev(1), ev(2), ev(3)) > 0
 ClassOK(C) ==
   \* box: the cells tile [0,1]^dim (positive volumes summing to 1 inside the box; conformity is C10's subject);
   \*      hypercube cells are axis-parallel boxes in FEAT's vertex numbering
@@ -129,7 +136,8 @@ ClassOK(C) ==
         /\ SumA([c \in 1..NC(C) |-> CellVolF(C, c)]) = (IF C.dim = 2 THEN 2 ELSE 6) * PowA(C.G, C.dim))
   /\ (C.class = "affine" /\ C.shape = "hypercube" => C.dim = 2 /\ \A c \in 1..NC(C) : QuadAffine(CellPts(C, c)))
   /\ (C.dim = 2 => \A c \in 1..NC(C) : Convex2D(C, c))
-  /\ (C.class # "box" => C.dim = 2)
+  \* 3D cells of non-box meshes: the Jacobian determinant of the (tri)linear map is positive at every corner
+  /\ (C.dim = 3 /\ C.class # "box" => C.class = "general" /\ \A c \in 1..NC(C) : CornersPositive3D(C, c))
 
 \* expected value of a polynomial (sequence of terms) integrated over the domain, times SpecScale
 ExpNum(C, mom, mode, poly) ==
@@ -179,7 +187,7 @@ MatJobFails(C, j, mom, J, O) ==
        IF KernelTrial(op) THEN Fail(O.kert, "KernelConst", j, "trial") ELSE {},
        IF KernelTest(op) THEN Fail(O.kers, "KernelConst", j, "test") ELSE {},
        \* MassSum = Volume
-       IF HasMassSum(op) /\ PartitionOfUnity(C.test) /\ PartitionOfUnity(C.trial) THEN
+       IF HasMassSum(op) /\ PartitionOfUnity(C.test) /\ PartitionOfUnity(C.trial) /\ (C.class = "box" \/ C.dim = 2) THEN
          LET md == IF C.class = "box" THEN "box" ELSE "poly" IN
          IF O.sum.S # SpecScale(md, C.G, 0, C.dim) THEN Fail(FALSE, "MACHINERY:Scale", j, "sum")
          ELSE IF ~O.sum.dec THEN {}
@@ -201,7 +209,7 @@ VecJobFails(C, j, mom, J, O) ==
             "MACHINERY:JobNotInCatalogue", j, ""),
        RouteFails(C, j, J, O),
        \* FunctionalOfOne: the entries of a functional vector sum to the integral of the density
-       IF PartitionOfUnity(C.test) /\ FuncDeg(fn) >= 0 /\ (C.class = "box" \/ FuncDeg(fn) <= 2) THEN
+       IF PartitionOfUnity(C.test) /\ FuncDeg(fn) >= 0 /\ (C.class = "box" \/ (C.dim = 2 /\ FuncDeg(fn) <= 2)) THEN
          LET md == IF C.class = "box" THEN "box" ELSE "poly" IN
          IF O.sum.S # SpecScale(md, C.G, FuncDeg(fn), C.dim) THEN Fail(FALSE, "MACHINERY:Scale", j, "sum")
          ELSE IF ~O.sum.dec THEN {}
